@@ -1,18 +1,38 @@
 import PsyVerif.Lemmas.RegionDataSem
 /-! # C12 — Extraction regions record every input and output they need
 
-Model: `RegionData.inputs/outputs/inOut` (= `CallTreeUtils.get_in_out_parameters` on the
-ordered access list `RegionData.sacc` = `VariablesAccessInfo`).  Semantics: `RegionData.rexec`
-(= `MiniF.exec` plus `DO WHILE`; every theorem holds for every iteration bound `fuel`).
+Model (`Model/RegionData.lean`): `inputs/outputs/inOut` = `CallTreeUtils.get_in_out_parameters`
+on the ordered access list `sacc` = `VariablesAccessInfo` (assignment, IF, DO incl. dependent
+bounds, DO WHILE: condition then body); `extractTrans`/`inOutItems` = `ExtractTrans` refusal of
+CodeBlock/Return regions and the lists where CodeBlocks contribute no access;
+`inputsCalls/outputsCalls` = the merge of per-routine summaries for non-local (module) variables.
+Semantics: `RegionData.rexec` (= `MiniF.exec`, `rexec_ofStmt`, plus fuel-bounded `DO WHILE`;
+every theorem holds for every `fuel`).  Structure members `g%d(i)` are separate variable ids.
 
-* `C12_outputs` — unconditional: every variable the region can modify is an output.
-* `C12_statement` (the replay claim at full strength) is FALSE of the pinned code:
-  `partial_write_counterexample` (`a(1) = 5; b(2) = a(2)`: `a` is not an input although
-  `a(2)`'s incoming value is read).  `C12_inputs_statement` (every value the region computes
-  is determined by the recorded inputs) is false on the same witness.
-* `C12_inputs_partial`, `C12_replay_partial` — proved under the decidable side conditions
-  `WholeFirstWrites` / `OutputsDefined`, which exclude exactly "a variable whose first
-  textual access is a write that does not unconditionally define all of it". -/
+Theorems
+* `C12_outputs`, `C12_outputs_region`, `C12_outputs_minif`, `C12_extract_outputs`,
+  `C12_outputs_calls` — unconditional: every variable the region can modify is an output
+  (statement lists, accepted extraction regions, regions of calls).
+* `C12_outputs_char`, `C12_inputs_char` — what the lists are.
+* `C12_statement` (replay at full strength) and `C12_inputs_statement` (every stored value is
+  determined by the recorded inputs) are FALSE of the pinned code:
+  `partial_write_counterexample`, `partial_write_inputs_counterexample` (`a(1)=5; b(2)=a(2)`),
+  `write_only_replay_counterexample` (`a(1)=5`), `own_bounds_counterexample` (`do i = i, 2`),
+  `codeblock_invisible_example` (CodeBlock accesses are invisible to the plain lists).
+* `C12_inputs_partial`, `C12_replay_partial`, `C12_replay_region_partial` — proved under the
+  purely SYNTACTIC, decidable side conditions `WholeFirstWrites` / `OutputsDefined` (`chk`): a
+  first-written variable may be read only where it is an unconditionally assigned scalar
+  (earlier in an enclosing sequence, in both branches of an IF, a loop variable) or an array
+  element covered by an earlier unconditional store to the textually same element, nothing its
+  index depends on having been written since.  `C12_covering_write_sufficient`,
+  `cover2_inputs_sufficient`: that criterion (what a conservative `is_written_first` could
+  check without def-use chains) is sufficient.
+* `C12_inputs_not_minimal`, `C12_inputs_not_value_minimal` — the converse is false: an input
+  need not be read on any execution (dead branch), nor influence the result.
+* `C12_extract_refuses`, `C12_extract_lists` — the refusal protects extraction regions.
+* `C12_inputs_calls_super` — merged per-routine inputs contain the inputs of the inlined region.
+Outside the theorems (differential run + gfortran oracle only): CodeBlock contents, calls of
+unknown intent (arguments READWRITE, exported as READ;WRITE), LFRic kernel call trees. -/
 namespace C12
 open MiniF RegionData
 
